@@ -2615,7 +2615,12 @@ class CollocatedIntegratedOptimizationProblem(OptimizationProblem, metaclass=ABC
         else:
             tf = xf = ca.MX()
         t = ca.vertcat(t0, history_times[history_indices], times[indices], tf)
-        x = ca.vertcat(x0, history[history_indices], state[indices[0] : indices[-1] + 1], xf)
+        if len(indices) > 0:
+            inner_states = state[indices[0] : indices[-1] + 1]
+        else:
+            # No time stamp of the variable lies inside the requested window
+            inner_states = ca.MX()
+        x = ca.vertcat(x0, history[history_indices], inner_states, xf)
 
         return x, t
 
